@@ -2585,6 +2585,11 @@ void read_table_column_alignments(const char * source, token * table, scratch_pa
 	while (walker) {
 		switch (walker->type) {
 			case TABLE_CELL:
+				if (counter >= kMaxTableColumns - 1) {
+					// No room to record further alignments
+					break;
+				}
+
 				align = scan_alignment_string(&source[walker->start]);
 
 				switch (align) {
